@@ -248,4 +248,42 @@ example : ∃ (body : Body Unit) (jm : JMap), GV.Proofs.GoMapRangeOnce.Keep 0 (.
       subst he
       simp [List.foldl, applyMut, keyFor, JMap.delete, JMap.set, GV.Proofs.GoMapRangeOnce.Keep]⟩
 
+/-! ### every binding form of the range clause is the same walk -/
+
+/-- the visited slots do not depend on the binding form when the body does not use the variables
+    (`for range m`, `for _ = range m`, `for _, _ = range m`, `for k := range m { … k unused … }` walk alike) -/
+theorem range_forms_same_walk {σ : Type} (fs : Int → Str) (f1 f2 : RangeForm) (g : σ → List Mut × σ) (jm : JMap)
+    (st : KSt) (u : σ) :
+    rangeForm fs f1 (fun _ _ u' => g u') jm st u = rangeForm fs f2 (fun _ _ u' => g u') jm st u := rfl
+
+/-- `range_spec` for every binding form and every body: an entry the body keeps is visited exactly once -/
+theorem range_spec_forms {σ : Type} (fs : Int → Str) (form : RangeForm) (body : FBody σ) (jm : JMap) (st : KSt) (u : σ)
+    (p : Nat) (k : JKey) (hstart : GV.Proofs.GoMapRangeOnce.Keep p k jm)
+    (hbody : ∀ (kb : Option KVal) (vb : Option Int) (u' : σ) (jm' : JMap) (st' : KSt),
+      GV.Proofs.GoMapRangeOnce.Keep p k jm' →
+      GV.Proofs.GoMapRangeOnce.Keep p k ((body kb vb u').1.foldl (applyMut fs) (jm', st')).1) :
+    ((rangeForm fs form body jm st u).visited.map (·.1)).count p = 1 :=
+  range_spec fs _ jm st u p k hstart (fun x u' jm' st' hk => hbody _ _ u' jm' st' hk)
+
+/-- for every binding form and every body: a slot that is empty at the start is never visited; in particular the body
+    runs at most once per slot (`range_visits_nodup`) and never for an emptied one (`range_skips_deleted` applies to the
+    same `rangeLoop`) -/
+theorem range_forms_skip_deleted {σ : Type} (fs : Int → Str) (form : RangeForm) (body : FBody σ) (jm : JMap) (st : KSt)
+    (u : σ) (p : Nat) (hd : jm[p]? = some none) :
+    ∀ x ∈ (rangeForm fs form body jm st u).visited, x.1 ≠ p :=
+  range_skips_deleted fs _ p jm.size _ hd (by simp)
+
+/-- a body that counts its runs and deletes key 2 -/
+def countAndDelete2 : FBody Nat := fun _ _ n => ([.delete (.int 2)], n + 1)
+
+/-- COUNTEREXAMPLE for the rejected loop shape ("an unbound range runs the body `_size` times without the re-check"):
+    on the map {1, 2}, with a body that deletes entry 2 in its first run, the emitted loop runs the body once (entry 2
+    was deleted before it was reached), the plain counting loop runs it twice. -/
+theorem seeded_unbound_counterexample :
+    let jm : JMap := [some (.num 1, (.int 1, 10)), some (.num 2, (.int 2, 20))]
+    (rangeForm halfFs .unbound countAndDelete2 jm KSt.init 0).user = 1 ∧
+    (rangeForm halfFs .unbound countAndDelete2 jm KSt.init 0).visited.length = 1 ∧
+    (seededUnbound halfFs countAndDelete2 jm KSt.init 0).2.2 = 2 := by
+  decide
+
 end GV.Props.C15
